@@ -531,6 +531,7 @@ type replayFile struct {
 	Steps []Step `json:"steps"`
 	Cache bool   `json:"cache"`
 	Drain bool   `json:"drain"`
+	Idx0  bool   `json:"idx0"`
 }
 
 func main() {
@@ -557,7 +558,7 @@ func main() {
 			must(json.Unmarshal(b, &wrap))
 			rf = wrap.Case
 		}
-		c := runCase(0, "replay", rf.Steps, rf.Cache, rf.Drain)
+		c := runCase(0, "replay", rf.Steps, rf.Cache, rf.Drain, rf.Idx0)
 		if *asJSON {
 			must(json.NewEncoder(os.Stdout).Encode(c))
 			return
@@ -617,7 +618,7 @@ func main() {
 			must(err)
 			var rf replayFile
 			must(json.Unmarshal(b, &rf))
-			must(enc.Encode(runCase(100000+k, "corpus:"+e.Name(), rf.Steps, rf.Cache, rf.Drain)))
+			must(enc.Encode(runCase(100000+k, "corpus:"+e.Name(), rf.Steps, rf.Cache, rf.Drain, rf.Idx0)))
 		}
 	}
 	flavours := []string{"mixed", "gap", "eager", "restore", "acl", "malformed", "restorebuf", "resume", "eager", "gap"}
